@@ -230,7 +230,8 @@ def coq_eval(name, imports, body_lines, exprs, timeout=900):
             f.write(l + "\n")
         for i, e in enumerate(exprs):
             f.write(f'Definition verif_res_{i} := Eval vm_compute in ({e}).\nPrint verif_res_{i}.\n')
-    rc, out = sh(["timeout", str(timeout), "coqc"] + COQFLAGS + [os.path.join("cases", name + ".v")], cwd=COQ, timeout=timeout + 30)
+    rc, out = sh(["bash", "-c", "ulimit -s unlimited 2>/dev/null; exec timeout %d coqc %s %s" % (timeout, " ".join(COQFLAGS), os.path.join("cases", name + ".v"))],
+                 cwd=COQ, timeout=timeout + 30)
     if rc != 0:
         raise RuntimeError(f"coqc failed on cases/{name}.v: {out[-1500:]}")
     res = []
